@@ -57,6 +57,13 @@ CLAIMED["C19"] = ("(a) every generated numeric accessor of (scheme bytevector) /
     "relational guard-dominates-access over the CFG (linear forms of branch conditions vs. interprocedural width summaries of accessor helpers); call-graph SCC depth-bound verification",
     "3 C19")
 
+CLAIMED["C15"] = ("(a) kind-set dataflow over sexp_equalp_bound and hash_one: the heap tags equal? compares through a semantic comparator "
+    "are disjoint from the tags whose raw trailing bytes hash_one hashes (otherwise equal? values hash differently); (b) both recursions "
+    "pass through a verified depth bound (termination on deep/cyclic data). Necessary conditions of hash/equal? coherence; hash-table "
+    "histories are not decided.",
+    "sibling agreement by kind-set dataflow probes (tags reaching the semantic-compare returns vs. tags reaching the raw-byte hashing statements); call-graph SCC depth-bound verification",
+    "3 C15")
+
 # properties planned in DESIGN.md but whose checks are not built yet are listed
 # as not applicable *for now* with that reason, so the manifest never over-claims
 PENDING = {}
